@@ -345,7 +345,7 @@ func init() {
 		return out, nil
 	})
 
-	// concurrent {schema, docs, insts, validateDefaults, burst, freshRounds}: k goroutines x m rounds over one Resolved / one Schema tree (C13)
+	// concurrent {schema, docs, insts, validateDefaults, burst, freshRounds, applyFirst}: k goroutines x m rounds over one Resolved / one Schema tree (C13)
 	// Optional arg infer {type, opts, warm} (as for the op `infer`): the goroutines additionally call ForType on `type` and on every
 	// `warm` type with ONE *ForOptions value shared by all of them (one TypeSchemas map whose entry schemas were decoded from JSON);
 	// every result must marshal like the result of the same call made alone with an options object of its own, and the shared
@@ -366,6 +366,12 @@ func init() {
 			// 3 passes of Validate over all the instances on it, each verdict compared with the sequential one —
 			// the first concurrent calls on a Resolved that Resolve has just returned, many times per operation.
 			FreshRounds int `json:"freshRounds"`
+			// ApplyFirst (default empty = off: Validate only, as before): in every fresh round each goroutine BEGINS with
+			// ApplyDefaults on a copy of its own of insts[i] for every index i listed here, in this order (each result compared
+			// with the sequential ApplyDefaults result on that instance), and only then makes its Validate passes: the first
+			// calls ever made on the fresh Resolved are then concurrent ApplyDefaults calls on distinct instances. In the
+			// ordinary phase the goroutines that begin with ApplyDefaults also take these instances first.
+			ApplyFirst []int `json:"applyFirst"`
 		}
 		if err := json.Unmarshal(args, &inf); err != nil {
 			return nil, err
@@ -492,6 +498,17 @@ func init() {
 						}
 					}()
 					<-fstart
+					for _, i := range inf.ApplyFirst {
+						if i < 0 || i >= len(insts) {
+							continue
+						}
+						var v any
+						json.Unmarshal(texts[i], &v)
+						applyOnce(frs, &v)
+						if b, _ := json.Marshal(v); string(b) != seqDefaults[i] {
+							note()
+						}
+					}
 					for b := 0; b < passes; b++ {
 						for i, v := range insts {
 							if safeValidate(frs, v) != seq[i] {
@@ -525,6 +542,17 @@ func init() {
 				for round := 0; round < m; round++ {
 					if g%2 == 1 && round == 0 {
 						// half of the goroutines begin with ApplyDefaults, the others with Validate
+						for _, i := range inf.ApplyFirst {
+							if i < 0 || i >= len(insts) {
+								continue
+							}
+							var v any
+							json.Unmarshal(texts[i], &v)
+							applyOnce(rs, &v)
+							if b, _ := json.Marshal(v); string(b) != seqDefaults[i] {
+								note()
+							}
+						}
 						for i := range insts {
 							var v any
 							json.Unmarshal(texts[i], &v)
